@@ -1,5 +1,7 @@
 #include "reject.hpp"
+#ifdef _OPENMP
 extern "C" int omp_get_num_procs(void) { return 64; }
+#endif
 namespace vf {
 static CaseResult run(const RunCtx &ctx, const Tape &tape, Tape &canon) {
     TapeReader t(tape);
